@@ -101,7 +101,10 @@ Inductive kstep :=
    commit (read through the etcd client): the model must hold exactly these keys, so any
    change of the key function is a mismatch at once *)
 | KCommit (g : bytes) (req : commit_req) (keys : option (list bytes))   (* one OffsetCommit request *)
-| KFetch (g : bytes) (req : list (bytes * list Z)) (observed : list (bytes * list (Z * Z * bytes * Z))).
+| KFetch (g : bytes) (req : list (bytes * list Z)) (observed : list (bytes * list (Z * Z * bytes * Z)))
+(* any other store operation between the commits and fetches (DeleteTopic, CreateTopic,
+   CreatePartitions, DeleteConsumerGroup, UpdateTopicConfig ... on related names), with its answer *)
+| KStore (o : op) (r : res).
 
 Record case16 := mkCase16 { k16_etcd : bool; k16_steps : list kstep }.
 
@@ -115,6 +118,7 @@ Fixpoint check16_im (s : inmem) (l : list kstep) : bool :=
   | [] => true
   | KCommit g req _ :: l' => check16_im (fst (im_run s (offset_commit_ops g req))) l'
   | KFetch g req obs :: l' => fetch_eqb (offset_fetch (im_lookup s) g req) obs && check16_im s l'
+  | KStore o r :: l' => res_eqb (snd (im_step s o)) r && check16_im (fst (im_step s o)) l'
   end.
 Fixpoint check16_et (s : etcd) (l : list kstep) : bool :=
   match l with
@@ -126,6 +130,7 @@ Fixpoint check16_et (s : etcd) (l : list kstep) : bool :=
       | None => true
       end && check16_et s' l'
   | KFetch g req obs :: l' => fetch_eqb (offset_fetch (et_lookup s) g req) obs && check16_et s l'
+  | KStore o r :: l' => res_eqb (snd (et_step s o)) r && check16_et (fst (et_step s o)) l'
   end.
 Definition check_case16 (k : case16) : bool :=
   if k16_etcd k then check16_et (et_new 1) (k16_steps k) else check16_im (im_new 1) (k16_steps k).
